@@ -562,17 +562,19 @@ theorem trim_ne_dot {t t' : Word} (h : WsSubst cc t t') : (cc.trim t != ['.']) =
     have h2 : (cc.trim t' != ['.']) = true := by simpa using trim_ne_ws cc t' '.' hd
     rw [h1, h2]
 
+/-- (a hinted token is never skipped, so the hints have to agree too) -/
 theorem isSkipped_eq (L : WsLaws cc) (cfg : ScanCfg) (hcc : cfg.cc = cc) {a b : Tok}
-    (h : WsSubst cc a.text b.text) : Scanner.isSkipped cfg a = Scanner.isSkipped cfg b := by
+    (h : WsSubst cc a.text b.text) (hn : a.nan = b.nan) :
+    Scanner.isSkipped cfg a = Scanner.isSkipped cfg b := by
   unfold Scanner.isSkipped
-  rw [hcc, h.beq_singleton '-' L.not_hyphen, h.all_eq cc.isWhitespace (fun _ hc => hc)]
+  rw [hcc, hn, h.beq_singleton '-' L.not_hyphen, h.all_eq cc.isWhitespace (fun _ hc => hc)]
 
 /-- `TokWs`-related tokens are indistinguishable to the scanner as soon as `W`-related words are
 indistinguishable to the language -/
 theorem tokWs_tokRel (L : WsLaws cc) (cfg : ScanCfg) (hcc : cfg.cc = cc) (W : Word → Word → Prop)
     (hW : ∀ w w', W w w' → LangEq cfg.lang w w' ∧ cfg.lang.isLinking w = cfg.lang.isLinking w')
     {a b : Tok} (h : TokWs cc W a b) : TokRel cfg a b := by
-  refine ⟨isSkipped_eq L cfg hcc h.text, h.nan, (hW _ _ h.lower).1, ?_⟩
+  refine ⟨isSkipped_eq L cfg hcc h.text h.nan, h.nan, (hW _ _ h.lower).1, ?_⟩
   unfold breaks
   rw [hcc, (hW _ _ h.lower).2, trim_ne_dot h.text,
     h.text.all_eq (fun c => !cc.isAlphabetic c) (fun c hc => by rw [L.not_alpha c hc]; rfl)]
